@@ -262,10 +262,12 @@ func VH_C17_toggle() {
 		case 3:
 			s.Cache = true
 			s.Asynchrone(1000, 200*time.Millisecond)
+		case 4: // asynchronous writes switched off explicitly (settings built from a configuration)
+			s.AsyncWrites = &Async{Enable: false, Threshold: 10, Timeout: time.Second}
 		}
 		return s
 	}
-	first := vChoice("first", 4)
+	first := vChoice("first", 5)
 	vAssert("C17.toggle.create", db.Create(&vObj{}, mk(first)) == nil)
 	var rows []vhRow
 	o := vhNewObj()
@@ -274,7 +276,7 @@ func VH_C17_toggle() {
 	// warm the cache
 	_, err := db.GetByUUID(&vObj{}, o.UUID())
 	vAssert("C17.toggle.get1", err == nil)
-	second := vChoice("second", 4)
+	second := vChoice("second", 5)
 	vAssert("C17.toggle.recreate", db.Create(&vObj{}, mk(second)) == nil)
 	// the running flusher (if any) keeps polling: it must not crash the process
 	crashed := vCatch(func() { vRunSpawned(1) })
